@@ -157,6 +157,20 @@ func templated(seed int64) *opgen.Op {
 			args = append(args, `label: "`+slot+`"`)
 		case 1:
 			args = append(args, `label: "same"`)
+		case 2:
+			// the label comes from a variable (given, or left to its default) or is a null literal
+			switch h("labvar"+slot) % 3 {
+			case 0:
+				if !decls[`$lb: String = "dfl"`] {
+					decls[`$lb: String = "dfl"`] = true
+					if h("lbgiven")%2 == 0 {
+						vars["lb"] = "given-" + slot
+					}
+				}
+				args = append(args, "label: $lb")
+			case 1:
+				args = append(args, "label: null")
+			}
 		}
 		switch h("if"+slot) % 8 {
 		case 0:
@@ -257,6 +271,14 @@ func runOp(rep *ev.Reporter, env *univ.Env, srv *drive.Server, name string, opSe
 						continue
 					}
 					sig, why, info := deferm.Judge(want, got)
+					if why == "" {
+						// a group carries the label its @defer gives it: the evaluated argument
+						for i, pl := range got.Payloads {
+							if i > 0 && !allowedLabels(doc, vars)[pl.Label] {
+								why = fmt.Sprintf("incremental payload %d carries label %q, which no @defer of the operation evaluates to", i, pl.Label)
+							}
+						}
+					}
 					if why != "" {
 						rep.Violate(sig, map[string]any{"case": cid, "why": why, "payloads": deferm.Describe(got), "plain": want.Data.Render(), "plain_errors": want.Errors})
 					}
@@ -394,4 +416,58 @@ func wsOp(rep *ev.Reporter, env *univ.Env, w *wsTransport, name string, opSeed i
 	} else if info.Incremental > 0 {
 		rep.Count("websocket_operations_with_incremental_payloads", 1)
 	}
+}
+
+// allowedLabels: the values the label arguments of the document's @defer directives evaluate to
+// under the given variables ("" for a group without label or with a null one).
+func allowedLabels(doc *ast.QueryDocument, vars map[string]any) map[string]bool {
+	out := map[string]bool{"": true}
+	defaults := map[string]*ast.Value{}
+	for _, o := range doc.Operations {
+		for _, v := range o.VariableDefinitions {
+			defaults[v.Variable] = v.DefaultValue
+		}
+	}
+	eval := func(v *ast.Value) {
+		switch v.Kind {
+		case ast.StringValue, ast.BlockValue:
+			out[v.Raw] = true
+		case ast.Variable:
+			if x, ok := vars[v.Raw]; ok {
+				if s, ok := x.(string); ok {
+					out[s] = true
+				}
+			} else if d := defaults[v.Raw]; d != nil && (d.Kind == ast.StringValue || d.Kind == ast.BlockValue) {
+				out[d.Raw] = true
+			}
+		}
+	}
+	var walk func(ss ast.SelectionSet)
+	dirs := func(ds ast.DirectiveList) {
+		if d := ds.ForName("defer"); d != nil {
+			if a := d.Arguments.ForName("label"); a != nil {
+				eval(a.Value)
+			}
+		}
+	}
+	walk = func(ss ast.SelectionSet) {
+		for _, sel := range ss {
+			switch x := sel.(type) {
+			case *ast.Field:
+				walk(x.SelectionSet)
+			case *ast.InlineFragment:
+				dirs(x.Directives)
+				walk(x.SelectionSet)
+			case *ast.FragmentSpread:
+				dirs(x.Directives)
+			}
+		}
+	}
+	for _, o := range doc.Operations {
+		walk(o.SelectionSet)
+	}
+	for _, f := range doc.Fragments {
+		walk(f.SelectionSet)
+	}
+	return out
 }
